@@ -5,8 +5,8 @@ import shutil
 from fractions import Fraction
 
 from pv.canon import B, T, Val, outcome, unB
-from props._c19_gen import (CPU, HW, PS, TZ, battery_files, chip_prefix, cpufreq_sysfs, sorted_fan_chips,
-                            sorted_temp_chips, sorted_zones, visible)
+from props._c19_gen import (CPU, HW, PS, TZ, battery_files, chip_prefix, cpufreq_sysfs, effective_plat, sorted_fan_chips,
+                            sorted_temp_chips, sorted_zones, spec_to_raw, visible)
 
 _st = {}
 TOL = Fraction(1, 2 ** 48)
@@ -175,6 +175,9 @@ def run(case, coq, env):
     import psutil
     psutil.PROCFS_PATH = _st["root"] + "/proc"
     k = case["kind"]
+    if k == "history":
+        # the steps run one after the other in this process: nothing may be remembered from the previous answer
+        return [run(c, q, env) for c, q in zip(case["steps"], coq["steps"])]
     fn = globals()["run_" + k.replace("_raw", "").replace("_coretemp", "")]
     return fn(psutil, case, coq, k.endswith("_raw"))
 
@@ -227,7 +230,16 @@ def run_temps(psutil, case, coq, raw):
         pe, pz = coq["printed"][0], coq["printed"][1]
         put_temp_chips(t, sorted_temp_chips(case["chips"]), pe, lambda c: chip_prefix(c))
         if case["kind"] == "temps_coretemp":
-            put_temp_chips(t, sorted_temp_chips(case["plat"]), coq["printed"][2], lambda c: chip_prefix(c))
+            eff = sorted_temp_chips(effective_plat(case))
+            put_temp_chips(t, eff, coq["printed"][2], lambda c: chip_prefix(c))
+            # platform copies of sensors that are also listed below /sys/class/hwmon: present in the tree, never read
+            kept = {(c["dir"], s["n"]) for c in eff for s in c["sensors"]}
+            for c in case["plat"]:
+                for s_ in c["sensors"]:
+                    if (c["dir"], s_["n"]) not in kept:
+                        base = chip_prefix(c) + "temp%d" % s_["n"]
+                        for f in ("input", "max", "crit", "label"):
+                            t.put(base + "_" + f, spec_to_raw(s_[f]))
         for z, p in zip(sorted_zones(case["zones"]), pz):
             zp = "%s/thermal_zone%d" % (TZ, z["idx"])
             t.dirs.add(zp)
